@@ -1473,6 +1473,89 @@ Section ModuleMove.
       * apply envB_rel_mod; auto.
       * apply envA_from_mod. exact Hgs.
   Qed.
+
+  (* ------------------------------------------------------------------ no stale import *)
+  Lemma resolve_some_ok (wx : world) m r o : resolve_ref wx m r = Some o -> imports_ok wx m = true.
+  Proof. unfold resolve_ref. destruct (imports_ok wx m); [reflexivity|discriminate]. Qed.
+
+  Lemma ok_of_env (wx : world) m e : env_of false wx (m_folder m) (m_imports m) = e -> env_ok e = true -> imports_ok wx m = true.
+  Proof. intros H1 H2. unfold imports_ok. rewrite H1. exact H2. Qed.
+
+  Lemma ok_glob m m' y g :
+    env_of false w (m_folder m) (m_imports m) = [(y, mod_attr w (fun _ => true) src g)] ->
+    env_of false w' (m_folder m') (m_imports m') = [(y, mod_attr w' (fun _ => true) new g)] ->
+    imports_ok w m = true -> imports_ok w' m' = true.
+  Proof.
+    intros H1 H2. unfold imports_ok. rewrite H1, H2. unfold src, new. rewrite !mod_attr_py, globals_new.
+    destruct (memN g (globals_of w (RPy p b))); auto.
+  Qed.
+
+  Theorem move_module_all_import F name st refs m' :
+    style_side V w p b D F st = true ->
+    forallb (ref_ok w p b st) refs = true ->
+    change_occurrences V w src D (client_of p b F name st refs) = Done m' ->
+    imports_ok w (client_of p b F name st refs) = true ->
+    imports_ok w' m' = true.
+  Proof.
+    intros Hside Hrefs Hco Hok. rewrite forallb_forall in Hrefs.
+    unfold style_side in Hside. apply andb_true_iff in Hside as [Hfb Hst]. fold l in Hfb.
+    destruct st as [|x|xo|g k| |xr|g k].
+    - change (client_of p b F name StImport refs) with (mI F name refs) in Hco.
+      rewrite co_import in Hco.
+      2:{ intros r Hr. destruct (ref_ok_base StImport _ r eq_refl (Hrefs r Hr)) as [->|[g [_ ->]]].
+          - exists []. rewrite app_nil_r. reflexivity.
+          - exists [g]. reflexivity. }
+      inversion Hco; subst m'.
+      match goal with |- imports_ok w' ?mm = _ => destruct (after_dotted mm eq_refl) as [A1 _] end.
+      eapply resolve_some_ok; eauto.
+    - apply negb_true_iff in Hst. rewrite co_import_as in Hco; auto.
+      2:{ intros r Hr. destruct (ref_ok_base (StImportAs x) _ r eq_refl (Hrefs r Hr)) as [->|[g [_ ->]]];
+          [left; reflexivity|right; eexists; reflexivity]. }
+      inversion Hco; subst m'. eapply ok_of_env; [apply envA_import_as|reflexivity].
+    - assert (Hp : p <> []) by (destruct p; [discriminate|discriminate]).
+      rewrite co_from_pkg in Hco; auto.
+      2:{ intros r Hr. destruct (ref_ok_base (StFromPkg xo) _ r eq_refl (Hrefs r Hr)) as [->|[g [_ ->]]];
+          [left; reflexivity|right; eexists; reflexivity]. }
+      inversion Hco; subst m'. eapply ok_of_env; [apply envA_from_pkg|reflexivity].
+    - apply andb_true_iff in Hst as [Hgb Hgs]. apply negb_true_iff in Hgb. apply negb_true_iff in Hgs.
+      rewrite co_from_mod in Hco; auto.
+      2:{ intros r Hr. specialize (Hrefs r Hr). unfold ref_ok in Hrefs. cbn [style_base] in Hrefs.
+          apply dotted_eqb_eq. exact Hrefs. }
+      inversion Hco; subst m'.
+      eapply (ok_glob (client_of p b F name (StFromMod g k) refs) _ (or_name k g) g); eauto.
+      + apply envB_from_mod. exact Hgs.
+      + apply envA_from_mod. exact Hgs.
+    - rewrite co_star in Hco; auto.
+      2:{ intros r Hr. specialize (Hrefs r Hr). unfold ref_ok in Hrefs. cbn [style_base] in Hrefs.
+          apply existsb_exists in Hrefs as [g [_ Hg2]]. exists g. apply dotted_eqb_eq. exact Hg2. }
+      inversion Hco; subst m'. eapply ok_of_env; [apply envA_star|apply env_ok_globs].
+    - apply andb_true_iff in Hst as [Hst Hx]. apply andb_true_iff in Hst as [HF Hp0].
+      apply path_eqb_eq in HF. subst F.
+      assert (Hp : p <> []) by (destruct p; [discriminate|discriminate]).
+      destruct (v_relctx V) eqn:Hv.
+      + rewrite co_rel_pkg_fixed in Hco; auto.
+        2:{ intros r Hr. destruct (ref_ok_base (StRelPkg xr) _ r eq_refl (Hrefs r Hr)) as [->|[g [_ ->]]];
+            [left; reflexivity|right; eexists; reflexivity]. }
+        inversion Hco; subst m'. eapply ok_of_env; [apply envA_from_pkg|reflexivity].
+      + destruct xr as [xa|]; [discriminate|].
+        rewrite co_rel_pkg in Hco; auto.
+        2:{ intros r Hr. destruct (ref_ok_base (StRelPkg None) [b] r eq_refl (Hrefs r Hr)) as [->|[g [_ ->]]];
+            [exists []; reflexivity|exists [g]; reflexivity]. }
+        inversion Hco; subst m'. destruct refs as [|r0 rs]; [reflexivity|].
+        match goal with |- imports_ok w' ?mm = _ => destruct (after_dotted mm eq_refl) as [A1 _] end.
+        eapply resolve_some_ok; eauto.
+    - apply andb_true_iff in Hst as [Hst Hgs]. apply andb_true_iff in Hst as [Hst Hgb].
+      apply andb_true_iff in Hst as [HF Hp0]. apply path_eqb_eq in HF. subst F.
+      apply negb_true_iff in Hgb. apply negb_true_iff in Hgs.
+      assert (Hp : p <> []) by (destruct p; [discriminate|discriminate]).
+      rewrite co_rel_mod in Hco; auto.
+      2:{ intros r Hr. specialize (Hrefs r Hr). unfold ref_ok in Hrefs. cbn [style_base] in Hrefs.
+          apply dotted_eqb_eq. exact Hrefs. }
+      inversion Hco; subst m'.
+      eapply (ok_glob (client_of p b p name (StRelMod g k) refs) _ (or_name k g) g); eauto.
+      + apply envB_rel_mod; auto.
+      + apply envA_from_mod. exact Hgs.
+  Qed.
 End ModuleMove.
 
 (* ------------------------------------------------------------------ the runner's domain predicate *)
@@ -1527,4 +1610,21 @@ Proof.
     as [m' [H1 [H2 [H3 H4]]]].
   exists m'. rewrite Em at 1. split; [exact H1|]. split; [exact H2|]. split; [exact H3|].
   rewrite Em. exact H4.
+Qed.
+
+Theorem move_module_all_import_domain V w p b D m m' :
+  move_domain V w (RPy p b) D m = true ->
+  move_module_text V w (RPy p b) D m = Done m' ->
+  imports_ok w m = true -> imports_ok (move_world (RPy p b) D w) m' = true.
+Proof.
+  unfold move_domain. intros H Hco Hok.
+  apply andb_true_iff in H as [H Hst]. apply andb_true_iff in H as [H _].
+  apply andb_true_iff in H as [Hlegal Hne]. apply negb_true_iff in Hne.
+  destruct (style_of p b m) as [st|] eqn:Est; [|discriminate].
+  apply andb_true_iff in Hst as [Hst Himps]. apply andb_true_iff in Hst as [Hside Hrefs].
+  apply (list_eqb_eq istmt_eqb istmt_eqb_eq) in Himps.
+  assert (Em : m = client_of p b (m_folder m) (m_name m) st (m_refs m)).
+  { destruct m as [f n i r]. cbn in *. subst i. reflexivity. }
+  unfold move_module_text in Hco. rewrite Hne in Hco. rewrite Em in Hco, Hok.
+  exact (move_module_all_import V w p b D Hlegal (m_folder m) (m_name m) st (m_refs m) m' Hside Hrefs Hco Hok).
 Qed.
